@@ -103,6 +103,9 @@ impl Ctx {
         }
         if self.trace_on {
             let t = text();
+            if std::env::var_os("NXSIM_LIVE").is_some() {
+                eprintln!("#{} {} {:?} {}", self.seq, tag, nums, t);
+            }
             if self.trace.len() < 20_000 {
                 self.trace.push(format!("#{} {} {:?} {}", self.seq, tag, nums, t));
             }
